@@ -32,12 +32,13 @@ import (
 )
 
 type c13Op struct {
-	K string `json:"k"`           // p gt app pipe close ff ffa sys gf exit fail | ofs ors rec (assignments to OFS, ORS, $0; C = the value)
+	K string `json:"k"`           // p gt app pipe close ff ffa sys gf exit fail | ofs ors rec om (assignments to OFS, ORS, $0, OUTPUTMODE; C = the value)
 	N string `json:"n,omitempty"` // symbolic name
 	C string `json:"c,omitempty"` // bytes written (F == "": the statement is chosen from C and the position, see c13Form)
 	V int    `json:"v,omitempty"` // exit code
 	F string `json:"f,omitempty"` // p gt app pipe: "" | "print" (print A[0], A[1], …; no A: bare print of $0) | "printf" (printf "%s%s…", A…) | "fmt" (printf C: C itself is the format)
 	A []string `json:"a,omitempty"`
+	S string `json:"s,omitempty"` // how a FILE name is spelled (see c13Spell): "" canonical absolute path | dot | dslash | updir | rootdot | link | tslash
 }
 
 type c13Case struct {
@@ -49,6 +50,8 @@ type c13Case struct {
 	Want string  `json:"want,omitempty"` // its expected stdout
 	Prev []c13Prev `json:"prev,omitempty"` // earlier Execute calls of the SAME program on the same Interpreter
 	Init map[string]string `json:"-"`      // the files as they are when the run under test starts (set by c13Run)
+	OM    string `json:"om,omitempty"`    // the output mode the run STARTS in, as an OUTPUTMODE string: "" | csv | tsv | "csv separator=;" …
+	OMVia string `json:"omvia,omitempty"` // how it is set: config (Config.OutputMode / CSVOutput) | vars (Config.Vars OUTPUTMODE; binary: -v) | opt (binary: -o); a BEGIN assignment is the op "om"
 	Bin  string  `json:"bin,omitempty"`  // binary stream: what the goawk PROCESS gets as fd 1: ok | rofile | devfull | closedpipe
 	Exit int     `json:"exit,omitempty"` // binary stream: the status the program asks for
 }
@@ -104,18 +107,102 @@ type c13Stmt struct {
 	Fmt    string   // IsFmt: printf with this literal format string (no conversion in it)
 	IsFmt  bool
 	Writes []string // the arguments of the writeOutput calls, in order
+	CSV    bool     // a print with arguments in CSV/TSV output mode: Writes holds the one encoded record, delivered as it is
 }
 
-func c13IsSet(k string) bool { return k == "ofs" || k == "ors" || k == "rec" }
+func c13IsSet(k string) bool { return k == "ofs" || k == "ors" || k == "rec" || k == "om" }
+
+// ---- CSV / TSV output mode: an encoder of its own (no encoding/csv) -----------------------------------------------------------
+//
+// The documented rule (docs/csv.md, encoding/csv.Writer): in OUTPUTMODE csv / tsv [separator=<char>] a `print` WITH arguments
+// writes one record: the fields joined by the separator, ended by LF (CR LF in the CRLF newline mode); a field is wrapped in
+// double quotes when it contains the separator, a double quote, CR or LF, starts with white space, or is `\.`; inside the
+// quotes a double quote is doubled (and in CRLF mode LF becomes CR LF and a CR is dropped); the record of one empty field is
+// `""`. OFS and ORS play no part. A bare `print` (no arguments) still writes $0 and ORS, printf is not affected.
+
+// c13Mode: an OUTPUTMODE string -> (is it a CSV mode, the separator)
+func c13Mode(om string) (bool, string) {
+	f := strings.Fields(om)
+	if len(f) == 0 {
+		return false, ""
+	}
+	sep := ","
+	if f[0] == "tsv" {
+		sep = "\t"
+	}
+	for _, kv := range f[1:] {
+		if strings.HasPrefix(kv, "separator=") {
+			sep = kv[len("separator="):]
+		}
+	}
+	return true, sep
+}
+
+// the white space a field may not start with unquoted (Unicode White_Space), as UTF-8
+var c13Spaces = []string{"\t", "\n", "\v", "\f", "\r", " ", "\u0085", "\u00a0", "\u1680", "\u2000", "\u2001", "\u2002", "\u2003", "\u2004", "\u2005",
+	"\u2006", "\u2007", "\u2008", "\u2009", "\u200a", "\u2028", "\u2029", "\u202f", "\u205f", "\u3000"}
+
+func c13CSVQuoted(sep, f string) bool {
+	if f == "" {
+		return false
+	}
+	if f == "\\." || strings.Contains(f, sep) || strings.ContainsAny(f, "\"\r\n") {
+		return true
+	}
+	for _, sp := range c13Spaces {
+		if strings.HasPrefix(f, sp) {
+			return true
+		}
+	}
+	return false
+}
+
+func c13CSVRecord(sep string, crlf bool, fields []string) string {
+	eol := "\n"
+	if crlf {
+		eol = "\r\n"
+	}
+	if len(fields) == 1 && fields[0] == "" {
+		return "\"\"" + eol
+	}
+	var b strings.Builder
+	for i, f := range fields {
+		if i > 0 {
+			b.WriteString(sep)
+		}
+		if !c13CSVQuoted(sep, f) {
+			b.WriteString(f)
+			continue
+		}
+		b.WriteByte('"')
+		for k := 0; k < len(f); k++ {
+			switch {
+			case f[k] == '"':
+				b.WriteString("\"\"")
+			case f[k] == '\r' && crlf:
+			case f[k] == '\n' && crlf:
+				b.WriteString("\r\n")
+			default:
+				b.WriteByte(f[k])
+			}
+		}
+		b.WriteByte('"')
+	}
+	return b.String() + eol
+}
 
 func c13IsPrint(k string) bool { return k == "p" || k == "gt" || k == "app" || k == "pipe" }
 
 // c13Stmts: the statement each print operation stands for (nil entries for the other operations)
 func c13Stmts(cs *c13Case) []*c13Stmt {
 	ofs, ors, rec := " ", "\n", ""
+	csv, sep := c13Mode(cs.OM)
+	crlf := c13CRLF(cs.NL)
 	res := make([]*c13Stmt, len(cs.Ops))
 	for i, op := range cs.Ops {
 		switch op.K {
+		case "om":
+			csv, sep = c13Mode(op.C)
 		case "ofs":
 			ofs = op.C
 		case "ors":
@@ -153,6 +240,9 @@ func c13Stmts(cs *c13Case) []*c13Stmt {
 				st.Printf, st.Args, st.Writes = true, []string{op.C}, []string{op.C}
 			}
 		}
+		if csv && !st.Printf && len(st.Args) > 0 {
+			st.CSV, st.Writes = true, []string{c13CSVRecord(sep, crlf, st.Args)}
+		}
 		res[i] = st
 	}
 	return res
@@ -189,10 +279,74 @@ func c13Eff(cs *c13Case) []string {
 			continue
 		}
 		for _, w := range st.Writes {
-			res[i] += c13Xf(crlf, w)
+			if st.CSV {
+				res[i] += w // the record goes to the writer as encoded: writeOutput is not involved
+			} else {
+				res[i] += c13Xf(crlf, w)
+			}
 		}
 	}
 	return res
+}
+
+// ---- spellings of a file name ---------------------------------------------------------------------------------------------
+//
+// The scratch directory is <top>/w (the variable D holds its absolute path); <top>/l is a symbolic link to it (variable L).
+// One file <top>/w/f1 can be named in several ways; the interpreter keys its streams by the name AS WRITTEN, so
+//   * a spelling used consistently behaves exactly like the canonical one (same returns of close / fflush / getline, same
+//     truncation, same file content), and
+//   * two different spellings of one file are two streams (each opened, truncated, buffered, closed on its own).
+// Relative names are never used (they would touch the working directory). "tslash" (a trailing slash) does not name a
+// regular file at all: opening it for writing is a run-time error ("output redirection error"), close / fflush of it find
+// no stream.
+var c13Spellings = []string{"dot", "dslash", "updir", "rootdot", "link"}
+
+// c13Spell: the AWK expression for the file name; base = the quoted "/f1"
+func c13Spell(kind, base string) string {
+	switch kind {
+	case "dot":
+		return "(D \"/.\" " + base + " SFX)"
+	case "dslash":
+		return "(D \"/\" " + base + " SFX)"
+	case "updir":
+		return "(D \"/../w\" " + base + " SFX)"
+	case "rootdot":
+		return "(\"/.\" D " + base + " SFX)"
+	case "link":
+		return "(L " + base + " SFX)"
+	case "tslash":
+		return "(D " + base + " SFX \"/\")"
+	}
+	return "(D " + base + " SFX)"
+}
+
+func c13IsFile(n string) bool { return n == "f1" || n == "f2" || n == "f3" }
+
+// c13Key: the identity of the STREAM an operation addresses (the name as written)
+func c13Key(op c13Op) string {
+	if op.S == "" || !c13IsFile(op.N) {
+		return op.N
+	}
+	return op.N + "@" + op.S
+}
+
+// c13Mixed: does the history use two spellings of one file (or one that names no regular file)? Such histories are judged by
+// the oracle only; consistent ones also go to the Lean model under the symbolic name (the model does not look inside names)
+func c13Mixed(cs *c13Case) bool {
+	seen := map[string]string{}
+	for _, op := range cs.Ops {
+		if !c13IsFile(op.N) {
+			continue
+		}
+		if op.S == "tslash" {
+			return true
+		}
+		if s, ok := seen[op.N]; ok && s != op.S {
+			return true
+		}
+		seen[op.N] = op.S
+	}
+	return false
 }
 
 func c13Render(cs *c13Case, d string) string { return c13RenderOpt(cs, d, true) }
@@ -201,7 +355,7 @@ func c13RenderOpt(cs *c13Case, d string, events bool) string {
 	var b strings.Builder
 	b.WriteString("BEGIN {\n")
 	q := func(s string) string {
-		return `"` + strings.NewReplacer("\\", "\\\\", "\"", "\\\"", "\n", "\\n", "\r", "\\r").Replace(s) + `"`
+		return `"` + strings.NewReplacer("\\", "\\\\", "\"", "\\\"", "\n", "\\n", "\r", "\\r", "\t", "\\t", "\v", "\\v", "\f", "\\f").Replace(s) + `"`
 	}
 	stmts := c13Stmts(cs)
 	ev := func(i int, r string) string {
@@ -214,7 +368,7 @@ func c13RenderOpt(cs *c13Case, d string, events bool) string {
 		name := func() string {
 			r := c13Real(d, op.N)
 			if op.N == "f1" || op.N == "f2" || op.N == "f3" {
-				return "(D " + q("/"+op.N) + " SFX)" // SFX is empty in the run under test
+				return c13Spell(op.S, q("/"+op.N)) // SFX is empty in the run under test
 			}
 			if strings.HasPrefix(r, d) && i%2 == 0 {
 				return "(D " + q(r[len(d):]) + ")"
@@ -247,6 +401,8 @@ func c13RenderOpt(cs *c13Case, d string, events bool) string {
 			fmt.Fprintf(&b, "  ORS = %s\n", q(op.C))
 		case "rec":
 			fmt.Fprintf(&b, "  $0 = %s\n", q(op.C))
+		case "om":
+			fmt.Fprintf(&b, "  OUTPUTMODE = %s\n", q(op.C))
 		case "p":
 			fmt.Fprintf(&b, "  %s%s\n", stmt(""), ev(i, "0"))
 		case "gt", "app", "pipe":
@@ -369,6 +525,7 @@ type c13Obs struct {
 	Err     string
 	Panic   string
 	Files   map[string]string // f*, *.out
+	Opens   []string          // one entry per call of Config.OpenFile in the run under test: T|A|R|W (truncate, append, read, other write) ":" file
 	Src     string
 	FailSeq int // sequence number at the first underlying write failure (-1: none)
 }
@@ -501,11 +658,18 @@ func c13Run(cs *c13Case) (obs c13Obs) {
 	if cs.Bin != "" {
 		return c13RunBin(cs)
 	}
-	d, err := os.MkdirTemp("", "c13_")
+	top, err := os.MkdirTemp("", "c13_")
 	if err != nil {
 		panic(err)
 	}
-	defer os.RemoveAll(d)
+	defer os.RemoveAll(top)
+	d, lnk := top+"/w", top+"/l" // the scratch directory and a symbolic link to it
+	if err := os.Mkdir(d, 0o755); err != nil {
+		panic(err)
+	}
+	if err := os.Symlink("w", lnk); err != nil {
+		panic(err)
+	}
 	os.WriteFile(d+"/f3", []byte(c13Old3), 0o644)
 	src := cs.Raw
 	if src == "" {
@@ -529,7 +693,46 @@ func c13Run(cs *c13Case) (obs c13Obs) {
 	var errw c13Sink
 	errw.limit, errw.failedAt, errw.seq, errw.seqMu = -1, -1, &seq, &mu
 	nlMode := map[string]interp.NewlineMode{"": interp.SmartNewlineMode, "smart": interp.SmartNewlineMode, "raw": interp.RawNewlineMode, "crlf": interp.CRLFNewlineMode}[cs.NL]
-	cfg := &interp.Config{Stdin: strings.NewReader(""), Error: &errw, Environ: []string{}, Vars: []string{"D", d, "SFX", "", "STOP", "0"}, Funcs: funcs, NewlineOutput: nlMode}
+	// the output mode the run starts in: through the Config fields or through Vars
+	mkCfg := func(sfx string, stop int) *interp.Config {
+		cfg := &interp.Config{Stdin: strings.NewReader(""), Environ: []string{}, Vars: []string{"D", d, "L", lnk, "SFX", sfx, "STOP", fmt.Sprint(stop)}, Funcs: funcs, NewlineOutput: nlMode}
+		if isCSV, sep := c13Mode(cs.OM); isCSV {
+			if cs.OMVia == "vars" {
+				cfg.Vars = append(cfg.Vars, "OUTPUTMODE", cs.OM)
+			} else {
+				cfg.OutputMode = interp.CSVMode
+				if strings.HasPrefix(cs.OM, "tsv") {
+					cfg.OutputMode = interp.TSVMode
+				}
+				if strings.Contains(cs.OM, "separator=") {
+					cfg.CSVOutput.Separator = []rune(sep)[0]
+				}
+			}
+		}
+		return cfg
+	}
+	cfg := mkCfg("", 0)
+	cfg.Error = &errw
+	var openMu sync.Mutex
+	cfg.OpenFile = func(name string, flag int, perm os.FileMode) (*os.File, error) {
+		what := "R"
+		switch {
+		case flag&os.O_TRUNC != 0:
+			what = "T"
+		case flag&os.O_APPEND != 0:
+			what = "A"
+		case flag&(os.O_WRONLY|os.O_RDWR) != 0:
+			what = "W" // written from the start without truncation: no redirect means that
+		}
+		f := filepath.Base(filepath.Clean(name))
+		if strings.HasSuffix(name, "/") {
+			f += "/"
+		}
+		openMu.Lock()
+		obs.Opens = append(obs.Opens, what+":"+f)
+		openMu.Unlock()
+		return os.OpenFile(name, flag, perm)
+	}
 	var bw *bufio.Writer
 	var rec *c13Rec
 	var bb *bytes.Buffer
@@ -561,8 +764,9 @@ func c13Run(cs *c13Case) (obs c13Obs) {
 			var po, pe c13Sink
 			po.limit, po.failedAt, po.seq, po.seqMu = -1, -1, &seq, &mu
 			pe.limit, pe.failedAt, pe.seq, pe.seqMu = -1, -1, &seq, &mu
-			p.Execute(&interp.Config{Stdin: strings.NewReader(""), Output: &po, Error: &pe, Environ: []string{},
-				Vars: []string{"D", d, "SFX", pv.Sfx, "STOP", fmt.Sprint(pv.Stop)}, Funcs: funcs, NewlineOutput: nlMode})
+			pcfg := mkCfg(pv.Sfx, pv.Stop)
+			pcfg.Output, pcfg.Error = &po, &pe
+			p.Execute(pcfg)
 			ents, _ := os.ReadDir(d)
 			for _, e := range ents {
 				if strings.HasSuffix(e.Name(), ".out") {
@@ -574,6 +778,9 @@ func c13Run(cs *c13Case) (obs c13Obs) {
 		cs.Init = map[string]string{}
 		ents, _ := os.ReadDir(d)
 		for _, e := range ents {
+			if e.IsDir() {
+				continue
+			}
 			b, _ := os.ReadFile(d + "/" + e.Name())
 			cs.Init[e.Name()] = string(b)
 		}
@@ -598,6 +805,9 @@ func c13Run(cs *c13Case) (obs c13Obs) {
 	obs.Files = map[string]string{}
 	ents, _ := os.ReadDir(d)
 	for _, e := range ents {
+		if e.IsDir() {
+			continue
+		}
 		b, _ := os.ReadFile(d + "/" + e.Name())
 		obs.Files[e.Name()] = string(b)
 	}
